@@ -18,6 +18,10 @@ def run_check(pid, tier="quick", seed=0, sources=None, quiet=False):
     mod = importlib.import_module("odmlsa.checks.%s" % pid.lower())
     prog = Program(sources=sources)
     rep = Report(pid, tier, seed)
+    for m in sorted(prog.modules.values(), key=lambda m0: m0.name):
+        for owner, cur, old in getattr(m, "restored_names", ()):
+            rep.note("private helper %s.%s%s is read as %s (same owner, kind, parameters and referrers as the helper the rules know "
+                     "under that name; see odmlsa/roles.py)" % (m.name, owner + "." if owner else "", cur, old))
     try:
         mod.run(prog, rep)
     except Exception as exc:
